@@ -328,7 +328,9 @@ def c_cli_grammar_input(ctx, w):
 
 def c_strip_fanout(ctx, s):
     gc = ctx.mod("grammarconst")
-    if s == "":
+    if s == "" or s.isdigit():
+        # outside the domain: the argument is always "label + fan-out"; a label consisting of digits only
+        # cannot be told from its fan-out (C09 excludes labels ending in a digit for RCG, Appendix A)
         raise Skip()
     exp = s
     while exp != "" and exp[-1].isdigit():
